@@ -92,11 +92,13 @@ def renderLine (w : World) (own : List WOut) : String :=
 
 /-! ### parsing ops -/
 
+def userReason (s : String) : Option String := if s == "-" then none else some s
+
 def parseFx? (t : String) : Option Fx :=
   match t.splitOn ":" with
   | ["sendself", m] => m.toNat?.map .sendSelf
-  | ["stopself"] => some (.stopSelf .none)
-  | ["stopself", r] => some (.stopSelf (reasonOf r))
+  | ["stopself"] => some (.stopSelf none)
+  | ["stopself", r] => some (.stopSelf (userReason r))
   | ["killself"] => some .killSelf
   | _ => none
 
@@ -131,7 +133,7 @@ def parseOp? (line : String) : Option Op :=
   | ["abort", a] => a.toNat?.map .abort
   | "resume" :: a :: rest => do let a ← a.toNat?; let s ← parseSeg? rest; pure (.resume a s)
   | ["send", a, m] => do pure (.send (← a.toNat?) (← m.toNat?))
-  | ["stop", a, r] => do pure (.stop (← a.toNat?) (reasonOf r))
+  | ["stop", a, r] => do pure (.stop (← a.toNat?) (userReason r))
   | ["kill", a] => a.toNat?.map .kill
   | ["drain", a] => a.toNat?.map .drain
   | _ => none
@@ -195,7 +197,7 @@ def noteEvents (op : Op) (note : String) : Option (List (Nat × Ev)) :=
   | ["ret", x] =>
     match op with
     | .send a m => pure [(a, .sendRet false m (x == "Ok"))]
-    | .stop a r => pure [(a, .stopRet false r (x == "Ok"))]
+    | .stop a r => pure [(a, .stopRet false (.ofUser r) (x == "Ok"))]
     | .kill a => pure [(a, .killRet false (x == "Ok"))]
     | .drain a => pure [(a, .drainRet (x == "Ok"))]
     | .spawn a _ | .pollSpawn a => do pure [(a, .spawnRet (← parseSpawnRet? x))]
